@@ -1,8 +1,122 @@
-"""C08 tables: constants of the current source that the arc model uses."""
+"""C08 tables: constants of the current source that the arc model uses.
+
+Round 6: besides `constants.TOL`, what the *source text* of the anchored functions says is read with `ast` (nothing is
+interpreted here): every comparison (left operand, operator names, comparators) and every numeric literal in source order,
+default arguments, the arguments of selected calls.  `CBV.Props.C08` proves that the model's guards and constants agree with
+these tables, so an edit of a guard, a branch condition or a constant breaks a proof obligation.
+"""
+
+from __future__ import annotations
+
+import ast
+import inspect
+import textwrap
+from fractions import Fraction
+from typing import Any, List, Tuple
+
+OPS = {
+    ast.Lt: "Lt", ast.LtE: "LtE", ast.Gt: "Gt", ast.GtE: "GtE", ast.Eq: "Eq", ast.NotEq: "NotEq", ast.Is: "Is", ast.IsNot: "IsNot",
+    ast.In: "In", ast.NotIn: "NotIn",
+}  # fmt: skip
+
+
+def fn_tree(fn) -> ast.AST:
+    fn = getattr(fn, "fget", fn)  # properties
+    return ast.parse(textwrap.dedent(inspect.getsource(fn)))
+
+
+def _pos(n) -> Tuple[int, int]:
+    return (n.lineno, n.col_offset)
+
+
+def compares(fn) -> List[Tuple[str, List[str], List[str]]]:
+    """every comparison of the function in source order: (left operand, operator names, comparators), unparsed"""
+    nodes = sorted((n for n in ast.walk(fn_tree(fn)) if isinstance(n, ast.Compare)), key=_pos)
+    return [(ast.unparse(n.left), [OPS[type(o)] for o in n.ops], [ast.unparse(c) for c in n.comparators]) for n in nodes]
+
+
+def negated_compares(fn) -> List[bool]:
+    """for every comparison in source order: is it the operand of a `not`?"""
+    tree = fn_tree(fn)
+    negated = {id(n.operand) for n in ast.walk(tree) if isinstance(n, ast.UnaryOp) and isinstance(n.op, ast.Not)}
+    nodes = sorted((n for n in ast.walk(tree) if isinstance(n, ast.Compare)), key=_pos)
+    return [id(n) in negated for n in nodes]
+
+
+def numbers(fn) -> List[Tuple[int, int]]:
+    """every numeric literal of the function body in source order as the exact decimal fraction of its text
+    (`1e-18` -> (1, 10**18)); a literal under a unary minus is negative"""
+    tree = fn_tree(fn)
+    neg = {id(n.operand) for n in ast.walk(tree) if isinstance(n, ast.UnaryOp) and isinstance(n.op, ast.USub)}
+    out = []
+    nodes = sorted((n for n in ast.walk(tree) if isinstance(n, ast.Constant)), key=_pos)
+    for n in nodes:
+        if isinstance(n.value, bool) or not isinstance(n.value, (int, float)):
+            continue
+        fr = Fraction(repr(n.value))
+        if id(n) in neg:
+            fr = -fr
+        out.append((fr.numerator, fr.denominator))
+    return out
+
+
+def defaults(fn) -> List[Tuple[str, str]]:
+    """(argument, default) of the arguments that have one, unparsed"""
+    fdef = next(n for n in ast.walk(fn_tree(fn)) if isinstance(n, ast.FunctionDef))
+    args = fdef.args
+    pos = args.posonlyargs + args.args
+    out = [(a.arg, ast.unparse(d)) for a, d in zip(pos[len(pos) - len(args.defaults):], args.defaults)]
+    out += [(a.arg, ast.unparse(d)) for a, d in zip(args.kwonlyargs, args.kw_defaults) if d is not None]
+    return out
+
+
+def calls(fn, name: str) -> List[List[str]]:
+    """the argument lists (positional unparsed, keywords as `k=v`) of every call of `name` / `*.name`, in source order"""
+    nodes = sorted((n for n in ast.walk(fn_tree(fn)) if isinstance(n, ast.Call)), key=_pos)
+    out = []
+    for n in nodes:
+        f = n.func
+        fname = f.attr if isinstance(f, ast.Attribute) else getattr(f, "id", None)
+        if fname == name:
+            out.append([ast.unparse(a) for a in n.args] + [f"{k.arg}={ast.unparse(k.value)}" for k in n.keywords])
+    return out
+
+
+CMP_T = "List (String × List String × List String)"
+NUM_T = "List (Int × Nat)"
 
 
 def emit_all(emit):
+    from classy_blocks.items.edges.arcs import angle, arc_base, origin
     from classy_blocks.util import constants
+    from classy_blocks.util import functions as f
 
     n, d = float(constants.TOL).as_integer_ratio()
     emit("c08Tol", "Int × Nat", (n, d), "constants.TOL as an exact fraction (threshold of `needs_adjust` in arc_from_origin)")
+
+    # --- round 6: the source text of the anchored functions
+    emit("c08ThetaCompares", CMP_T, compares(angle.arc_from_theta), "comparisons of arc_from_theta (one: the guard on the sector angle)")
+    emit("c08ThetaNegated", "List Bool", negated_compares(angle.arc_from_theta), "… is the comparison under a `not`")
+    emit("c08ThetaNumbers", NUM_T, numbers(angle.arc_from_theta), "numeric literals of arc_from_theta in source order")
+    emit("c08OriginCompares", CMP_T, compares(origin.arc_from_origin), "comparisons of arc_from_origin: needs_adjust threshold, multiplier test")
+    emit("c08OriginNumbers", NUM_T, numbers(origin.arc_from_origin), "numeric literals of arc_from_origin in source order")
+    emit("c08OriginDefaults", "List (String × String)", defaults(origin.arc_from_origin), "default arguments of arc_from_origin")
+    emit(
+        "c08OriginRecursion",
+        "List (List String)",
+        calls(origin.arc_from_origin, "arc_from_origin"),
+        "arguments of the recursive call of arc_from_origin (adjusted centre, adjust_center=False)",
+    )
+    emit("c08OriginArcMid", "List (List String)", calls(origin.arc_from_origin, "arc_mid"), "arguments of the arc_mid call")
+    emit("c08Arc3Compares", CMP_T, compares(f.arc_length_3point), "comparisons of arc_length_3point: denominator guard, side test")
+    emit("c08Arc3Numbers", NUM_T, numbers(f.arc_length_3point), "numeric literals of arc_length_3point in source order")
+    emit("c08Arc3Clip", "List (List String)", calls(f.arc_length_3point, "clip"), "arguments of np.clip in arc_length_3point")
+    emit("c08DivideArcNumbers", NUM_T, numbers(f.divide_arc), "numeric literals of divide_arc (count + 2 samples, slice [1:-1])")
+    emit("c08ArcMidCall", "List (List String)", calls(f.arc_mid, "divide_arc"), "arc_mid = divide_arc(..., 1)[0]")
+    emit("c08ValidCompares", CMP_T, compares(arc_base.ArcEdgeBase.is_valid), "comparison of ArcEdgeBase.is_valid (collinearity measure vs TOL)")
+    emit(
+        "c08LengthCall",
+        "List (List String)",
+        calls(arc_base.ArcEdgeBase.length, "arc_length_3point"),
+        "arguments of arc_length_3point in ArcEdgeBase.length (start, third point, end)",
+    )
